@@ -197,6 +197,14 @@ func (c *updater) setAuthExternal(config ConfigValueGetter, auth *hatypes.AuthEx
 	if err != nil {
 		// clean up and try again
 		used := c.haproxy.Backends().BuildUsedAuthBackends()
+		// names in use by frontend placed paths need to be preserved as well
+		for _, host := range c.haproxy.Hosts().Items() {
+			for _, hpath := range host.Paths {
+				if hpath.AuthExt != nil && hpath.AuthExt.AuthBackendName != "" {
+					used[hpath.AuthExt.AuthBackendName] = true
+				}
+			}
+		}
 		c.haproxy.Frontend().RemoveAuthBackendExcept(used)
 		authBackendName, err = c.haproxy.Frontend().AcquireAuthBackendName(backend.BackendID())
 		if err != nil {
